@@ -171,6 +171,35 @@ pub fn sort_compare(
   })
 }
 
+/// `Walker::pattern_filter` for a root-relative path under the given `--glob` list.
+pub fn glob_filter(globs: &[String], relative: &str) -> Result<bool, String> {
+  let walker = Walker::new(Path::new("."))
+    .globs(globs)
+    .map_err(|e| e.to_string())?;
+  Ok(walker.verif_pattern_filter(Path::new(relative)))
+}
+
+/// `Metainfo::trackers` of a torrent given as bytes: the URLs in the order a magnet link lists them.
+pub fn metainfo_trackers(data: &[u8]) -> Result<Vec<String>, String> {
+  let metainfo =
+    Metainfo::deserialize(&InputTarget::Path("<verif>".into()), data).map_err(|e| e.to_string())?;
+  metainfo
+    .trackers()
+    .map(|r| r.map(|u| u.to_string()).map_err(|e| e.to_string()))
+    .collect()
+}
+
+/// Infohash of a torrent given as bytes, as `torrent show`/`link` compute it.
+pub fn infohash_of(data: &[u8]) -> Result<String, String> {
+  let input = Input {
+    source: InputTarget::Path("<verif>".into()),
+    data: data.to_vec(),
+  };
+  Infohash::from_input(&input)
+    .map(|i| i.to_string())
+    .map_err(|e| e.to_string())
+}
+
 /// Fetches an info dictionary from one peer and returns its re-serialisation,
 /// exactly what `torrent from-link` would embed in the written torrent.
 pub fn peer_fetch(addr: &SocketAddr, infohash: [u8; 20]) -> Result<Vec<u8>, String> {
